@@ -2,7 +2,7 @@
 from __future__ import annotations
 
 import copy
-from typing import Any
+from typing import Any, Optional
 
 from autobean_refactor.models import base
 
@@ -20,7 +20,7 @@ RULE = ('A generated ledger (G1, either attribution mode, optionally after a sho
         'Non-trivial = the copied model is not the root, has >= 1 tree-model child, and a structural edit was applied inside the copy.')
 ASSUMPTIONS = ['edit programs for the copy are generated against a scratch copy of the same model (state-aware), then replayed']
 SHRINK_LISTS = ('ops', 'ops2', 'pre', 'indent_by', 'dirs')
-REQUIRED_CLASSES = ('indent_by-set', 'claim:on', 'claim:off', 'after-claim-program', 'depth>=2', 'edited-copy', 'edited-original', 'token-copy')
+REQUIRED_CLASSES = ('view-copies', 'indent_by-set', 'claim:on', 'claim:off', 'after-claim-program', 'depth>=2', 'edited-copy', 'edited-original', 'token-copy')
 
 
 def check_copy(m: Any, cp: Any, what: str) -> list:
@@ -64,6 +64,40 @@ def check_copy(m: Any, cp: Any, what: str) -> list:
     return bad
 
 
+def check_view_copies(root: Any) -> Optional[tuple]:
+    """A deep copy of a view (tags, postings, meta, ...) is a view of a copy of the list: edits through it show in it, not in the original."""
+    from vf.gen import schema as S
+    from vf.props import c10
+    for ms in OPS.index_models(root).values():
+        for m in ms:
+            for p in S.props_of(m):
+                if p.kind not in ('fview', 'sview', 'cview', 'rawmeta', 'meta') or p.name not in c10.VIEW_SPECS:
+                    continue
+                _, vis, _ = c10.VIEW_SPECS[p.name]
+                view = getattr(m, p.name)
+                if len(view) == 0:
+                    continue
+                snap = O.Snapshot(root)
+                try:
+                    cv = copy.deepcopy(view)
+                    before = list(cv)
+                    cv.pop()
+                    after = list(cv)
+                    raw_now = [c10.convert(p.name, x) for x in cv._raw_wrapper if c10.visible(vis, x)]
+                except ArithmeticError:
+                    continue
+                except Exception as e:  # noqa: BLE001
+                    return (f'view-copy-raised:{type(m).__name__}.{p.name}:{type(e).__name__}', f'deepcopy({type(m).__name__}.{p.name}) then pop() and reading it raised {e!r}')
+                if not c10.same_list(after, before[:-1]) and not all(isinstance(x, base.RawModel) for x in before):
+                    return (f'view-copy-stale:{type(m).__name__}.{p.name}', f'deepcopy({type(m).__name__}.{p.name}).pop(): the copy shows {after!r}, a list gives {before[:-1]!r}')
+                if len(after) != len(before) - 1 or len(raw_now) != len(after):
+                    return (f'view-copy-stale:{type(m).__name__}.{p.name}', f'deepcopy({type(m).__name__}.{p.name}).pop(): the copy shows {len(after)} entries, its own list holds {len(raw_now)}, a list gives {len(before) - 1}')
+                d = snap.diff(O.Snapshot(root))
+                if d:
+                    return (f'view-copy-not-independent:{type(m).__name__}.{p.name}', f'editing deepcopy({type(m).__name__}.{p.name}) changed the original: {d}')
+    return None
+
+
 def run_case(case: dict) -> Result:
     res = Result()
     claim = bool(case.get('claim', True))
@@ -104,6 +138,11 @@ def run_case(case: dict) -> Result:
                 break
             if d >= 1 and isinstance(m, base.RawTreeModel):
                 res.nontrivial = True
+        if not res.violations:
+            bad = check_view_copies(root)
+            classes.add('view-copies')
+            if bad:
+                res.bad(*bad)
         res.classes = sorted(classes)
         return res
     models_ = [(m, d) for m, d in O.walk(root) if isinstance(m, base.RawTreeModel) and not isinstance(m, O.Repeated)]
